@@ -1378,6 +1378,9 @@ type RichScenario struct {
 	Init     *RichConfig `json:"init"`
 	InitForm Reload      `json:"init_form"`
 	Steps    []RStep     `json:"steps"`
+	// Unset: the callbacks of target.Handler the consumer leaves nil, letters
+	// out of "aud" (consumer.go); "" = all three registered.
+	Unset string `json:"unset,omitempty"`
 }
 
 type rstats struct {
@@ -1405,6 +1408,9 @@ type rstats struct {
 	// on the reference messages disagreed (a flaw of this harness, never seen);
 	// the case is not judged from there on.
 	modelDisagreement string
+
+	// the shape of the consumer (consumer.go)
+	cons consumerStats
 }
 
 func (s *rstats) nontrivial() bool { return s.bodyEditWithRepointOrRemove || s.rejectedBetweenAccepted }
@@ -1467,6 +1473,7 @@ func (s *rstats) labels() []string {
 	add(s.delUsedNil, "deleted-target-used-nil-request")
 	add(s.nilCallAmongOthers, "call-with-nil-request-and-calls-for-other-targets-in-one-load")
 	add(s.modelDisagreement != "", "excluded:model-disagreement")
+	l = append(l, s.cons.labels()...)
 	return l
 }
 
@@ -1598,16 +1605,13 @@ func runRich(sc *RichScenario) (st rstats, err error) {
 		return st, vio("bad-scenario", "bad scenario: initial configuration is invalid (%v)", r)
 	}
 
-	var calls []call
-	h := target.Handler{
-		Add: func(u target.Update) {
-			calls = append(calls, call{"add", u.Name, cloneT(u.Target), cloneR(u.Request)})
-		},
-		Update: func(u target.Update) {
-			calls = append(calls, call{"update", u.Name, cloneT(u.Target), cloneR(u.Request)})
-		},
-		Delete: func(name string) { calls = append(calls, call{"delete", name, nil, nil}) },
+	reg, perr := parseUnset(sc.Unset)
+	if perr != nil {
+		return st, vio("bad-scenario", "%v", perr)
 	}
+	st.cons.reg, st.cons.ctor = reg, "NewConfig"
+	var calls []call
+	h := reg.handler(func(c call) { calls = append(calls, c) })
 
 	var (
 		cfg      *target.Config
@@ -1642,6 +1646,10 @@ func runRich(sc *RichScenario) (st rstats, err error) {
 		curSnap = snapshot(cur)
 		curRef = cur.build()
 		replayed = view(cur.build())
+		st.cons.ctor = "base-without-targets"
+		if len(cur.Targets) > 0 {
+			st.cons.ctor = "base-with-targets"
+		}
 		fc.prevMsg, fc.prevSnap, fc.prevRev = msg, curSnap, cur.Rev
 		st.measure(cur)
 	} else {
@@ -1712,6 +1720,9 @@ func runRich(sc *RichScenario) (st rstats, err error) {
 		after := cfg.Current()
 
 		desc := fmt.Sprintf("step %d load %d (representation %q, edits %v, revision %d -> %d)", p.step, p.rep, form, p.edits, fc.prevRev, spec.Rev)
+		if !reg.all() {
+			desc = fmt.Sprintf("step %d load %d (consumer registered {%s}, representation %q, edits %v, revision %d -> %d)", p.step, p.rep, reg, form, p.edits, fc.prevRev, spec.Rev)
+		}
 		if (gerr == nil) != want {
 			var ran string
 			if gerr != nil && len(got) > 0 {
@@ -1743,10 +1754,27 @@ func runRich(sc *RichScenario) (st rstats, err error) {
 		if st.pendingReject {
 			st.rejectedBetweenAccepted = true
 		}
-		exp := expectedCalls(curSnap, ns)
+		// The difference of the two configurations, projected onto the kinds of
+		// call the consumer registered (all of it for the consumer with all three).
+		full := expectedCalls(curSnap, ns)
+		exp, proj := full, projection{dropped: map[string]bool{}}
+		if !reg.all() {
+			exp = nil
+			for _, e := range full {
+				if k := e[:strings.IndexByte(e, '(')]; reg.has(k) {
+					exp = append(exp, e)
+				} else {
+					proj.dropped[k] = true
+				}
+			}
+		}
+		proj.announced = len(exp)
 		if strings.Join(exp, " ") != strings.Join(gotS, " ") {
 			class, what := "wrong-calls", "the handler calls are not the difference between the two configurations"
-			if len(exp) == 0 {
+			if !reg.all() {
+				what = fmt.Sprintf("the handler calls are not the difference between the two configurations restricted to what the consumer registered {%s}", reg)
+			}
+			if len(full) == 0 {
 				class, what = "call-for-unchanged-target", "the loaded configuration has exactly the targets, settings and requests of the current one, but handlers ran"
 			} else {
 				expSet := map[string]bool{}
@@ -1768,12 +1796,30 @@ func runRich(sc *RichScenario) (st rstats, err error) {
 			switch c.kind {
 			case "add", "update":
 				replayed[c.name] = entry{c.tgt, c.req}
+				if !reg.all() {
+					// no replay for a subset: the call must carry what the loaded configuration has for the name
+					wt := ref.GetTarget()[c.name]
+					wr := ref.GetRequest()[wt.GetRequest()]
+					if !sameTarget(c.tgt, wt) || (wr == nil && !noContent(c.req)) || (wr != nil && !sameRequest(c.req, wr)) {
+						return vio("call-content", "%s: %s carried settings {%v} and request {%v}; the loaded configuration has {%v} and {%v}", desc, c, c.tgt, c.req, wt, wr)
+					}
+				}
 			case "delete":
 				delete(replayed, c.name)
 			}
 		}
+		if cur != nil {
+			for n, nt := range ns.tgt {
+				if ot, ok := curSnap.tgt[n]; ok && ot == nt && curSnap.req[curSnap.use[n]] == ns.req[ns.use[n]] {
+					proj.silent++
+					break // (evidence only: one is enough)
+				}
+			}
+		}
+		st.cons.noteRich(proj, len(full))
 		// (An identical reload without calls leaves both sides of this comparison as they were.)
-		if changed || len(got) > 0 {
+		// The replay needs every kind of call: consumer with all three only.
+		if reg.all() && (changed || len(got) > 0) {
 			nilNew := spec.nilRequestTargets()
 			if len(nilNew) > 0 || st.nilReqUsedNow {
 				nilOld, withNil := map[string]bool{}, 0
